@@ -56,6 +56,7 @@ PROPERTY_RULES: Dict[str, List[Scoped]] = {
         _r("COMBINATOR-TOTAL", S_THL),
         _r("NAME-AS-KEY", ("utils.trees:LowestCommonAncestor",)),
         _r("UPDATE-PAIRING"), _r("RETENTION-GUARDS"), _r("POLARITY"),
+        _r("CLOSURE-LATE-BINDING", ("compute.reconciliation:", "utils.dynamic_programming:")),
     ],
     "C02": [
         _r("SENTINEL", S_SPFS, S_SUBSEQ), _r("COSTKEYS", S_SPFS), _r("PRUNE", S_SPFS), _r("EVENT-SIG", S_SPFS),
@@ -73,6 +74,7 @@ PROPERTY_RULES: Dict[str, List[Scoped]] = {
         _r("NAME-AS-KEY", ("utils.trees:LowestCommonAncestor",)),
         _r("UPDATE-PAIRING"), _r("RETENTION-GUARDS"), _r("POLARITY"),
         _r("ROOT-CONTENT", ("compute.super_reconciliation:",)),
+        _r("CLOSURE-LATE-BINDING", ("compute.super_reconciliation:", "utils.dynamic_programming:")),
     ],
     "C03": [
         _r("READONLY-DECODE", S_USPFS), _r("COSTKEYS", S_USPFS), _r("PRUNE", S_USPFS), _r("EVENT-SIG", S_USPFS),
@@ -90,6 +92,7 @@ PROPERTY_RULES: Dict[str, List[Scoped]] = {
         _r("NAME-AS-KEY", ("utils.trees:LowestCommonAncestor",)),
         _r("UPDATE-PAIRING"), _r("RETENTION-GUARDS"), _r("POLARITY"),
         _r("ROOT-CONTENT", ("compute.unordered_super_reconciliation:",)),
+        _r("CLOSURE-LATE-BINDING", ("compute.unordered_super_reconciliation:", "utils.dynamic_programming:")),
     ],
     "C04": [
         _r("DECODE-GUARD"), _r("DECODE-COMPLETE"), _r("LEAF-ANCHOR"), _r("SENTINEL"), _r("READONLY-DECODE"),
@@ -101,6 +104,8 @@ PROPERTY_RULES: Dict[str, List[Scoped]] = {
         _r("TREE-ITER-EXPLICIT"), _r("GAIN-AT-LCA"),
         _r("LCA-PROPAGATE"), _r("SORT-KEY-ALIGNED"),
         _r("ROOT-CONTENT"),
+        _r("CLOSURE-LATE-BINDING", S_COMPUTE + S_DP + S_MODEL), _r("REFINEMENT-PAIRING"), _r("MAPPING-KEYING"), _r("STALE-INPUT"), _r("TREE-WRITE-ARGS"),
+        _r("PARSE-READONLY"),
     ],
     "C05": [
         _r("POLICY-FLOW"), _r("DECODE-PRODUCT"), _r("RESULT-SCOPE"), _r("PRUNE"), _r("UPDATE-PAIRING"),
@@ -118,6 +123,7 @@ PROPERTY_RULES: Dict[str, List[Scoped]] = {
         _r("COMBINATOR-TOTAL"),
         _r("READONLY-INPUT"),
         _r("ROOT-CONTENT"),
+        _r("CLOSURE-LATE-BINDING", S_COMPUTE + S_DP),
     ],
     "C06": [
         _r("MODEL-TABLE"), _r("LABEL-SIBLINGS"), _r("EVENT-EXHAUSTIVE"), _r("EVENT-TABLE"), _r("CONSERVED-SIDE"),
@@ -152,6 +158,8 @@ PROPERTY_RULES: Dict[str, List[Scoped]] = {
         _r("STALE-INPUT"), _r("TREE-ITER-EXPLICIT", S_COMPUTE + S_MODEL + S_TREES),
         _r("MAPPING-KEYING"),
         _r("ROOT-CONTENT"),
+        _r("REFINEMENT-PAIRING"),
+        _r("PARSE-READONLY"),
     ],
     "C09": [
         _r("MIRROR"), _r("CLASS-DOMAIN"), _r("COST-HOMOGENEOUS"), _r("READONLY-DECODE"),
@@ -163,6 +171,7 @@ PROPERTY_RULES: Dict[str, List[Scoped]] = {
         _r("INFO-KEY"), _r("COMBINE-ORIENT"), _r("GRAPH-KEYS"),
         _r("COMBINATOR-TOTAL"),
         _r("POLICY-FLOW"),
+        _r("CLOSURE-LATE-BINDING", S_COMPUTE + S_DP),
     ],
     "C10": [
         _r("BASE-EXT-SHARE"), _r("EVENT-SIG"), _r("COSTKEYS"), _r("SIBLING-PAIRING"), _r("READONLY-DECODE"),
@@ -175,6 +184,7 @@ PROPERTY_RULES: Dict[str, List[Scoped]] = {
         _r("GRAPH-KEYS"),
         _r("COMBINATOR-TOTAL"),
         _r("ROOT-CONTENT"),
+        _r("CLOSURE-LATE-BINDING", S_COMPUTE + S_DP),
     ],
     "C11": [
         _r("DICT-KEYS"), _r("FIELDS-SERIALISED"), _r("TREE-WRITE-ARGS"), _r("ENUM-DISJOINT"), _r("MAPPING-KEYING"),
@@ -184,6 +194,7 @@ PROPERTY_RULES: Dict[str, List[Scoped]] = {
         _r("KEY-GUARD", S_MODEL), _r("COST-KEY-RESOLUTION"), _r("SORT-KEY-ALIGNED"), _r("COPY-FAITHFUL", S_MODEL),
         _r("TREE-ITER-EXPLICIT", S_MODEL), _r("HASH-CANONICAL"),
         _r("DERIVED-QUERIES"),
+        _r("PARSE-READONLY"),
     ],
     "C12": [
         _r("LABEL-GUARD"), _r("REGISTRY-SIGNATURE"), _r("CHOICES-ENUM"),
@@ -715,18 +726,18 @@ _DECIDED_ROUND5 = {
     'C20': ['no direct iteration of a tree (TREE-ITER-EXPLICIT); deep copies of tree nodes use the detaching `.copy()` (COPY-FAITHFUL); a parameter annotated Iterable is walked once or materialised first (ITERABLE-ONCE)', 'abstract execution of DisjointSet.binary on every partition of 1..5 blocks in every listing order of the blocks: exactly the 2**(k-1) - 1 two-block coarsenings, each once (BINARY-COARSENINGS)', 'trees_to_triples returns every triple of every tree, not one per cherry (TRIPLES-SOURCE); no chained assignment reads a name it has just rebound (CHAINED-ASSIGN-ORDER)'],
 }
 _DECIDED_ROUND7 = {
-    'C04': ['the drivers decode from the complete root synteny only (ROOT-CONTENT)'],
-    'C08': ['the drivers decode from the complete root synteny only, whichever refinement is being solved (ROOT-CONTENT)'],
-    'C10': ['both super-reconciliation drivers decode from the complete root synteny (ROOT-CONTENT)'],
+    'C04': ['the drivers decode from the complete root synteny only (ROOT-CONTENT)', 'the data of an input reaches a refinement by name, never by the position of a leaf in a traversal (REFINEMENT-PAIRING); names are resolved exactly (MAPPING-KEYING); nothing computed on the unrefined input is used inside the refinement loop (STALE-INPUT); trees are written with their root and features (TREE-WRITE-ARGS)', 'no stored closure reads an iteration variable (CLOSURE-LATE-BINDING)'],
+    'C08': ['the drivers decode from the complete root synteny only, whichever refinement is being solved (ROOT-CONTENT)', 'leaf data reach a refinement by name, never by position (REFINEMENT-PAIRING)'],
+    'C10': ['both super-reconciliation drivers decode from the complete root synteny (ROOT-CONTENT)', 'every event combinator is bound to its own event: no stored closure reads an iteration variable (CLOSURE-LATE-BINDING)'],
     'C01': ['the ancestry oracle never identifies a species by its name (NAME-AS-KEY on LowestCommonAncestor); the table entries it fills keep the optimum with exact comparisons (UPDATE-PAIRING, RETENTION-GUARDS, POLARITY)'],
     'C03': ['the ancestry oracle never identifies a species by its name (NAME-AS-KEY on LowestCommonAncestor); exact comparisons in Entry.update (UPDATE-PAIRING, RETENTION-GUARDS, POLARITY)'],
     'C05': ['the drivers decode from the complete root synteny only (ROOT-CONTENT)', 'no solver writes into the input (a cost written by one algorithm would change what the next one retains) (READONLY-INPUT)'],
     'C07': ['species are never looked up by name in the ancestry oracle (NAME-AS-KEY); no `node in tree` test - ete3 answers it for strict descendants only (TREE-ITER-EXPLICIT)'],
-    'C09': ['aggregates inherit the retention policy of the table: none is created with a literal policy (POLICY-FLOW)'],
+    'C09': ['no stored closure reads an iteration variable (CLOSURE-LATE-BINDING)', 'aggregates inherit the retention policy of the table: none is created with a literal policy (POLICY-FLOW)'],
     'C17': ['queries resolve nodes by identity, never by name (NAME-AS-KEY on LowestCommonAncestor)'],
     'C02': ['species are never looked up by name in the ancestry oracle (NAME-AS-KEY); exact comparisons in Entry.update (UPDATE-PAIRING, RETENTION-GUARDS, POLARITY)', 'without a prescribed root, the root orders are toposort_all of the precedence graph of all families, not of a filtered graph completed by hand (ROOT-ORDER-SOURCE derived-root-orders)'],
     'C06': ['species are never looked up by name in the ancestry oracle (NAME-AS-KEY on LowestCommonAncestor)', 'every conditional return of the evaluator is selected by the event of the node - no closed-form shortcut for a subtree (EVAL-NO-SHORTCUT)'],
-    'C11': ['neither _from_dict nor from_dict edits a parsed tree (no relabelling of nodes that look unnamed) (FIELD-SOURCE tree-as-written)'],
+    'C11': ['parsing never rewrites the dictionary it is given nor shares one of its entries with the parsed object (PARSE-READONLY)', 'neither _from_dict nor from_dict edits a parsed tree (no relabelling of nodes that look unnamed) (FIELD-SOURCE tree-as-written)'],
     'C13': ['NodeEvent and EdgeEvent are plain Enum classes, so kinds of the two enumerations never compare equal (KIND-ENUM-BASE); every species looks at its genes - no species is skipped before the gene loop (PLACED-IN-SPECIES every-species)'],
     'C14': ['points, sizes and rectangles are never ordered as whole named tuples (GEOM-NO-ORDER)'],
     'C16': ['the tie branch and the improvement branch of update agree on what a tagged candidate is (TAG-TEST-CONSISTENT)'],
